@@ -22,6 +22,7 @@ type lookupEntry struct {
 type nodeEntry struct {
 	lock              sync.Mutex // TODO: Replace with key based locking.
 	refCount          int
+	unlinked          bool // removed from the namespace (unlink, rmdir, replaced by rename)
 	attr              fuseops.InodeAttributes
 	pathToBackingFile string // empty for directory
 }
